@@ -7,7 +7,7 @@
 EXTENDS RingBuf, Json, IOUtils
 CONSTANTS TR0,      \* model value of the round counter at the real round0 (RoundMod - 3: wraps after 3 rounds)
           Allow
-VARIABLES l, mismatch
+VARIABLES l, mismatch, seen     \* seen: <<class, first line>> of every violation class met so far
 Tr == ndJsonDeserialize(IOEnv.TRACE)
 
 MapRnd(rel) == (TR0 + rel + RoundMod) % RoundMod
@@ -54,7 +54,7 @@ Init == /\ rb = InitB(TR0) /\ rpos = [r \in Readers |-> NoPos] /\ got = None
         /\ mem = [c \in 0..(Size - 1) |-> Junk] /\ wcount = 0
         /\ next = [r \in Readers |-> Pending] /\ low = [r \in Readers |-> 0]
         /\ lastret = [r \in Readers |-> 0] /\ rounds = 0 /\ viol = {} /\ ev = << >>
-        /\ l = 1 /\ mismatch = {}
+        /\ l = 1 /\ mismatch = {} /\ seen = {}
 
 Step ==
   /\ l <= Len(Tr)
@@ -68,13 +68,14 @@ Step ==
           [] e.op = "dget"  -> DoDataGet(e.r, e.dsz, e.cnt)
           [] e.op = "inc"   -> DoInc(e.r, e.n)
      /\ mismatch' = { e.op \o ":" \o f : f \in ResDiff(e) \cup StDiff(e) }
+  /\ seen' = seen \cup { <<c, l>> : c \in { v \in viol' : \A x \in seen : x[1] # v } }
   /\ l' = l + 1
-  /\ (l = Len(Tr)) => PrintT("TRACE-ACCEPTED")
+  /\ (l = Len(Tr)) => PrintT(<<"TRACE-ACCEPTED", l, seen'>>)
 
-Spec == Init /\ [][Step]_<<vars, l, mismatch>>
+Spec == Init /\ [][Step]_<<vars, l, mismatch, seen>>
 
 Conforms == mismatch = {}
-PropertyHolds == viol \subseteq Allow
+PropertyHolds == \A x \in seen : x[1] \in Allow
 RoundsBound == rounds < RoundMod - 8       \* soundness of the modular mapping of round_num
 (* statistics for the evidence *)
 AtEnd == l > Len(Tr)
